@@ -8,13 +8,22 @@
 (* run ids) and the instrument / sample containers (index 1 for every run, one object).       *)
 (* ReadBack is what a reader returns: 0-based run ids again, the table re-assembled.          *)
 (* The invariants state that this equals the declarative content of SqwContentDefs.           *)
+(*                                                                                          *)
+(* The caller keeps his parameter objects: `held` is the run-id list as it sits in the        *)
+(* caller's experiment objects.  Writing a file must leave it alone, and a second file built   *)
+(* from the same objects (Rebuild, MaxGen = 2) must again have the content that was supplied.  *)
+(* Run ids are listed in whatever order the caller lists his runs (the pixel row `irun`        *)
+(* indexes that list), in particular not sorted.                                               *)
 EXTENDS SqwContentDefs
 
-CONSTANTS NPix, Chunks, RunLists, Orders, Bug
+CONSTANTS NPix, Chunks, RunLists, Orders, MaxGen, Bug
+(* Bug: "none" | "rows" | "stale" | "zerobased" | "zeroidx" | "firstchunk" | "sortruns" | "inplace" *)
 (* Orders: set of functions N -> value order, given as sequences; val[p] = rank of pixel p     *)
 
-VARIABLES n, chunk, runs, val, phase, off, block, meta, fileruns, idx, nuniq, readruns, readtable
-vars == <<n, chunk, runs, val, phase, off, block, meta, fileruns, idx, nuniq, readruns, readtable>>
+VARIABLES n, chunk, runs, val, phase, off, block, meta, fileruns, idx, nuniq, readruns, readtable,
+          held,   \* the run ids as they sit in the caller's objects (what the next build is handed)
+          gen     \* how many files have been built from these objects
+vars == <<n, chunk, runs, val, phase, off, block, meta, fileruns, idx, nuniq, readruns, readtable, held, gen>>
 
 Min2(a, b) == IF a < b THEN a ELSE b
 
@@ -23,6 +32,7 @@ Init == /\ n \in NPix /\ chunk \in Chunks /\ runs \in RunLists
         /\ phase = "meta" /\ off = 0 /\ block = <<>>
         /\ meta = [npix |-> -1, minp |-> 0, maxp |-> 0]
         /\ fileruns = <<>> /\ idx = <<>> /\ nuniq = 0 /\ readruns = <<>> /\ readtable = <<>>
+        /\ held = runs /\ gen = 1
 
 (* pixels whose value is the smallest / largest among those looked at *)
 ArgMin(P) == CHOOSE p \in P : \A q \in P : val[p] <= val[q]
@@ -33,7 +43,7 @@ WriteMeta == /\ phase = "meta" /\ phase' = "pix"
              /\ meta' = [npix |-> n,
                          minp |-> IF n = 0 THEN 0 ELSE ArgMin(Looked),
                          maxp |-> IF n = 0 THEN 0 ELSE ArgMax(Looked)]
-             /\ UNCHANGED <<n, chunk, runs, val, off, block, fileruns, idx, nuniq, readruns, readtable>>
+             /\ UNCHANGED <<n, chunk, runs, val, off, block, fileruns, idx, nuniq, readruns, readtable, held, gen>>
 
 LoopBound == IF Bug = "rows" THEN NRows ELSE n
 (* the slice of every row that goes into this chunk *)
@@ -47,23 +57,39 @@ WriteChunk ==
                         PixId(SliceStart + ((k - 1) \div NRows) + 1, ((k - 1) % NRows) + 1)]
        IN block' = block \o piece
     /\ off' = off + chunk
-    /\ UNCHANGED <<n, chunk, runs, val, phase, meta, fileruns, idx, nuniq, readruns, readtable>>
+    /\ UNCHANGED <<n, chunk, runs, val, phase, meta, fileruns, idx, nuniq, readruns, readtable, held, gen>>
 
 PixDone == /\ phase = "pix" /\ off >= LoopBound /\ phase' = "runs"
-           /\ UNCHANGED <<n, chunk, runs, val, off, block, meta, fileruns, idx, nuniq, readruns, readtable>>
+           /\ UNCHANGED <<n, chunk, runs, val, off, block, meta, fileruns, idx, nuniq, readruns, readtable, held, gen>>
 
+(* ascending rearrangement of a sequence of distinct integers (negative control only) *)
+RECURSIVE SortedSeq(_)
+SortedSeq(S) == IF S = {} THEN <<>> ELSE LET m == MinOf(S) IN <<m>> \o SortedSeq(S \ {m})
+
+(* the records are written from what the caller's objects hold, in the caller's order; the      *)
+(* negative controls write them 0-based, sorted, or bump the caller's own ids in place          *)
 WriteRuns == /\ phase = "runs" /\ phase' = "read"
-             /\ fileruns' = IF Bug = "zerobased" THEN runs ELSE [i \in 1..Len(runs) |-> runs[i] + 1]
+             /\ LET src == IF Bug = "sortruns" THEN SortedSeq(Range(held)) ELSE held
+                    out == IF Bug = "zerobased" THEN src ELSE [i \in 1..Len(src) |-> src[i] + 1]
+                IN /\ fileruns' = out
+                   /\ held' = IF Bug = "inplace" THEN out ELSE held
              /\ idx' = [i \in 1..Len(runs) |-> IF Bug = "zeroidx" THEN 0 ELSE 1]
              /\ nuniq' = 1
-             /\ UNCHANGED <<n, chunk, runs, val, off, block, meta, readruns, readtable>>
+             /\ UNCHANGED <<n, chunk, runs, val, off, block, meta, readruns, readtable, gen>>
 
 ReadBack == /\ phase = "read" /\ phase' = "done"
             /\ readruns' = [i \in 1..Len(fileruns) |-> fileruns[i] - 1]
             /\ readtable' = [p \in 1..(Len(block) \div NRows) |-> [r \in 1..NRows |-> block[NRows * (p - 1) + r]]]
-            /\ UNCHANGED <<n, chunk, runs, val, off, block, meta, fileruns, idx, nuniq>>
+            /\ UNCHANGED <<n, chunk, runs, val, off, block, meta, fileruns, idx, nuniq, held, gen>>
 
-Next == WriteMeta \/ WriteChunk \/ PixDone \/ WriteRuns \/ ReadBack
+(* another file from the same objects (another target): everything is written again *)
+Rebuild == /\ phase = "done" /\ gen < MaxGen
+           /\ gen' = gen + 1 /\ phase' = "meta" /\ off' = 0 /\ block' = <<>>
+           /\ meta' = [npix |-> -1, minp |-> 0, maxp |-> 0]
+           /\ fileruns' = <<>> /\ idx' = <<>> /\ nuniq' = 0 /\ readruns' = <<>> /\ readtable' = <<>>
+           /\ UNCHANGED <<n, chunk, runs, val, held>>
+
+Next == WriteMeta \/ WriteChunk \/ PixDone \/ WriteRuns \/ ReadBack \/ Rebuild
 Spec == Init /\ [][Next]_vars
 
 -----------------------------------------------------------------------------
@@ -77,6 +103,8 @@ PixMeta == phase # "meta" =>
     /\ (n > 0 => /\ val[meta.minp] = MinOf(Range(val))
                  /\ val[meta.maxp] = MaxOf(Range(val)))
 RunIdsOneBased == phase \in {"read", "done"} => fileruns = FileRunIds(runs)
+(* the caller's objects are as he made them, whatever has been written from them *)
+InputsUntouched == held = runs
 SharedObject   == phase \in {"read", "done"} => idx = ContainerIdx(Len(runs)) /\ nuniq = 1
 RoundTrip == phase = "done" =>
     /\ readruns = runs
